@@ -9,6 +9,7 @@ package c13
 
 import (
 	"encoding/json"
+	"runtime"
 	"time"
 
 	"verifh/checks"
@@ -20,14 +21,17 @@ const prop = "C13"
 
 // kase is the replayable description of one case (all parts).
 type kase struct {
-	Part     string      `json:"part"` // "A" enumerated declaration, "K" published vector, "E" hand-written edge, "B" gate
-	Name     string      `json:"name,omitempty"`
-	Inputs   []*ref.Node `json:"inputs,omitempty"`
-	Indexed  []bool      `json:"indexed,omitempty"`
-	Selected []bool      `json:"selected,omitempty"` // B: inputs bound to a column (absent = all)
-	Index    int         `json:"index,omitempty"`    // K / E: table index
-	Logs     []logT      `json:"logs,omitempty"`     // B
-	Sig      string      `json:"sig,omitempty"`      // informational: reference signature
+	Part       string      `json:"part"` // "A" enumerated declaration, "K" published vector, "E" hand-written edge, "B" gate, "H" history
+	Name       string      `json:"name,omitempty"`
+	Inputs     []*ref.Node `json:"inputs,omitempty"`
+	Indexed    []bool      `json:"indexed,omitempty"`
+	Selected   []bool      `json:"selected,omitempty"`   // B: inputs bound to a column (absent = all)
+	Index      int         `json:"index,omitempty"`      // K / E: table index
+	Logs       []logT      `json:"logs,omitempty"`       // B
+	Sig        string      `json:"sig,omitempty"`        // informational: reference signature
+	Slots      []slotT     `json:"slots,omitempty"`      // H: integrations built in sequence
+	Interleave bool        `json:"interleave,omitempty"` // H
+	Full       bool        `json:"full,omitempty"`       // H: full log alphabet
 }
 
 func init() {
@@ -38,23 +42,34 @@ func init() {
 		Rule: "A: names {T,Transfer,a_b1,X9} x every input list of 0..3 inputs whose type trees (leaf | T[] | T[k], k in {1,2,10,12} | tuple of 1..3 fields, tuple nesting <= 3, multi-dimensional arrays) total <= 4 nodes over 8 leaf spellings plus exactly 5 nodes over 4 leaf spellings {uint256,address,bytes,bytes32} " +
 			"(thorough: <= 5 nodes over 8 leaf spellings plus exactly 6 nodes over the 4) x every indexed layout; plus 17 published (declaration, topic0) vectors (Seaport OrderFulfilled as JSON-ABI text) and 8 hand-written edge declarations given as JSON-ABI text. Non-trivial = declaration contains a tuple or an array. " +
 			"B: events 'Transfer' with 1..3 inputs over {uint256,address,bytes} indexed or not and a tuple (uint256,bytes) indexed or not (thorough: also string,bool), x every selection pattern (each input with or without a column, at least one selected; an indexed tuple is never selected; unselected non-indexed inputs are still carried in the data); per integration 46 logs " +
-			"(9 topic0 variants x 1..5 topics, plus the empty topic list), each alone and every ordered pair in one tx (quick tier, integrations with an unselected input: only the pairs in which at least one log carries the declared hash or no topics, 562 instead of 2162 log sets), fresh Integration per log set. The expected topic count is always (indexed inputs of the DECLARATION)+1, whatever is selected. Non-trivial = log set contains a non-matching log.",
+			"(9 topic0 variants x 1..5 topics, plus the empty topic list), each alone and every ordered pair in one tx (quick tier, integrations with an unselected input: only the pairs in which at least one log carries the declared hash or no topics, 562 instead of 2162 log sets), fresh Integration per log set. The expected topic count is always (indexed inputs of the DECLARATION)+1, whatever is selected. Non-trivial = log set contains a non-matching log. " +
+			"H (history inside one case): sequences of k in {2,3} integrations built one after the other in one process, each slot = one of 18 events ({Transfer,Approval} x 9 input lists incl. indexed string/bytes/uint256[]/uint256[2] topics, selected or not) built fresh inside the case, or THE SAME declaration object as an earlier slot; x {no interleaving, Signature/SignatureHash of the slot's own declaration and of a foreign event after every dig.New}; " +
+			"then every integration is gated against its log alphabet (quick: declared hash x 1..5 topics, empty list, the 8 other topic0 variants with the matching count; thorough: all 46), the logs of the other events of the sequence, and one tx holding all of them; the declaration is deep-compared with a pristine copy after dig.New and after Insert; slices returned by SignatureHash are held and re-read after later hash computations (also in every part A case).",
 		Assumptions: []string{
 			"reference signature = ref.EventSignature (h/ref/sig.go, written from the Solidity ABI spec); reference hash = ref.Keccak256 (independent Keccak-f[1600]); the 17 published topic0 values are checked against the reference hash first (harness error if they disagree)",
+			"every case builds its declarations fresh (part B: a deep copy per log set, part H: inside the case); nothing built by one case is seen by another, so a recorded case replays in a fresh process; the process runs with GOMAXPROCS(1) so per-P caches of the code under test behave identically in workers and replays",
 			"part B judges WHICH logs produce rows (count per log, attributed by the log_idx column), not the other column values (C11); arrays are not used in part B so that a matching log yields exactly one row",
 			"part B selects at least one input (a selected input is required for log indexing); an indexed tuple with selected components is not enumerated (its components cannot be read from topics)",
 			"configurations are completed by config.ValidateFix and handed to dig.New exactly as shovel/task.go NewDestination does; no filters, no notifications, so only CopyFrom of the fake connection is used",
 			"logs with 5 topics (impossible on chain, representable in eth.Log) are included so that 'more topics than indexed inputs' is covered for 3 indexed inputs",
 		},
-		Budget:        map[string]time.Duration{"quick": 100 * time.Second, "thorough": 800 * time.Second},
+		Budget:        map[string]time.Duration{"quick": 240 * time.Second, "thorough": 800 * time.Second},
 		MinNontrivial: 100000,
 		Run:           run,
 		Replay:        replay,
 	})
 }
 
+// The check is single-threaded; one P makes the behaviour of per-P caches in the code under
+// test (sync.Pool and the like) the same in every worker and in every replay process.
+func pin() { runtime.GOMAXPROCS(1) }
+
 func run(c *fw.Ctx) {
+	pin()
 	runA(c)
+	if c.Res.Exhaustive {
+		runH(c)
+	}
 	if c.Res.Exhaustive {
 		runB(c)
 	}
@@ -67,6 +82,7 @@ func replay(c *fw.Ctx, raw json.RawMessage) {
 		return
 	}
 	c.Eval(true)
+	pin()
 	switch k.Part {
 	case "A":
 		if len(k.Indexed) != len(k.Inputs) {
@@ -102,6 +118,8 @@ func replay(c *fw.Ctx, raw json.RawMessage) {
 			logs = append(logs, lb)
 		}
 		evalB(c, ev, logs)
+	case "H":
+		evalH(c, k.Slots, k.Interleave, k.Full)
 	default:
 		c.HarnessError("bad case part %q", k.Part)
 	}
